@@ -336,6 +336,13 @@ func (evm *EVM) Call(ctx context.Context, caller ethvm.ContractRef, addr common.
 						preCallResult.Err = ErrOutOfGas
 					}
 
+					// The frame failed: undo its effects (value transfer, account creation)
+					// and consume the gas exactly like any other frame error.
+					evm.StateDB.RevertToSnapshot(snapshot)
+					if preCallResult.Err != ErrExecutionReverted {
+						preCallResult.Gas = 0
+					}
+
 					return preCallResult.Ret, preCallResult.Gas, preCallResult.Err
 				}
 
